@@ -5506,6 +5506,10 @@ class State:
                 raise ValueError('The player must show when all-in.')
             elif self.street is self.streets[-1]:
                 raise ValueError('A card is not shown in final showdown.')
+            elif self.street is None:
+                raise ValueError(
+                    'Non-standard showdown must show all cards.',
+                )
             else:
                 raise AssertionError
 
